@@ -1,11 +1,11 @@
 #!/bin/bash
-# confirm_seed3.sh <Cxx> <name>: confirms a seeded change produced in the worktree /tmp/seed3-Cxx (outputs in
-# /tmp/seed3-Cxx-out) and, if confirmed, files it under /verif/seeded/<name>/.
+# confirm_seed3.sh <Cxx> <name>: confirms a seeded change produced in the worktree /tmp/${SEEDPFX:-seed3}-Cxx (outputs in
+# /tmp/${SEEDPFX:-seed3}-Cxx-out) and, if confirmed, files it under /verif/seeded/<name>/.
 # Confirmed = patch applies to a clean checkout, demo fails with it and passes without, the crate's test suite
 # has no failing test other than the baseline's always-failing difficulty::basic_osu.
 set -u
-P=$1; NAME=$2; W=/tmp/seed3-$P; O=/tmp/seed3-$P-out
-L=/tmp/seed3-$P-confirm; mkdir -p $L
+P=$1; NAME=$2; W=/tmp/${SEEDPFX:-seed3}-$P; O=/tmp/${SEEDPFX:-seed3}-$P-out
+L=/tmp/${SEEDPFX:-seed3}-$P-confirm; mkdir -p $L
 cd $W || exit 2
 [ -f $O/patch.diff ] && [ -f $O/demo.rs ] && [ -f $O/meta.json ] || { echo "outputs missing in $O"; exit 2; }
 git checkout -q -- . 2>/dev/null
